@@ -30,11 +30,13 @@ def main(tier):
     configs = []
     if tier == "quick":
         for k, n in enumerate([2, 4, 8, 16, 8, 16, 4, 16]):
-            configs.append({"seed": run.seed * 1000 + k, "threads": n, "rounds": 5, "calls_per_thread": 10, "cffi": 3 if k < 6 else 0, "inject_p": 0.3})
+            configs.append({"seed": run.seed * 1000 + k, "threads": n, "rounds": 5, "calls_per_thread": 10, "cffi": 3 if k < 6 else 0, "inject_p": 0.3,
+                            "cffi_burst": 1 if k in (2, 3, 5) else 0})
     else:
         for s in range(5):
             for k, n in enumerate([2, 4, 8, 16] * 6):
-                configs.append({"seed": run.seed * 100000 + s * 100 + k, "threads": n, "rounds": 12, "calls_per_thread": 30, "cffi": 6, "inject_p": 0.3})
+                configs.append({"seed": run.seed * 100000 + s * 100 + k, "threads": n, "rounds": 12, "calls_per_thread": 30, "cffi": 6, "inject_p": 0.3,
+                                "cffi_burst": 2 if k % 3 == 0 else 0})
     try:
         pending = list(enumerate(configs))
         running = []
@@ -91,7 +93,10 @@ def main(tier):
         for m in r["mismatches"]:
             run.violation("concurrent-result-differs-from-sequential", {"config": cfg, **m})
         for e in r["errors"]:
-            run.violation("concurrent-call-raised-but-sequential-call-succeeds", {"config": cfg, **e})
+            if str(e["event"].get("error", "")).startswith("result differs from the reference"):
+                run.violation("concurrent-result-differs-from-reference-semantics", {"config": cfg, **e})
+            else:
+                run.violation("concurrent-call-raised-but-sequential-call-succeeds", {"config": cfg, **e})
         if r["sequential_errors"]:
             run.count("sequential_errors_not_judged_here", r["sequential_errors"])
         for k in range(min(r["overlapping_call_pairs"], r["calls"])):
